@@ -44,14 +44,25 @@ Definition wide_str (buf : list N) : outcome (list N * nat) :=
   if N.of_nat (length buf) <? 4 + 2 * len then Err E_WIDESTR
   else Ok (decode_utf16le (firstn (2 * N.to_nat len) (skipn 4 buf)), (4 + 2 * N.to_nat len)%nat).
 
-(* match read_i32(&xti[4..8]) { -2 => "#ThisWorkbook", -1 => "#InvalidWorkSheet",
-     p if p >= 0 && (p as usize) < sheets.len() => quote_sheet_name(&sheets[p].0), _ => "#Unknown" }
-   (the sheet name as formula text writes it: commit "fix: sheet names that need quotes …") *)
-Definition resolve_xti (sheets : list (list N)) (first_raw : N) : list N :=
+(* match (read_i32(&xti[4..8]), read_i32(&xti[8..12])) {
+     (-2, _) => "#ThisWorkbook", (-1, _) => "#InvalidWorkSheet",
+     (p, q) if p >= 0 && (p as usize) < sheets.len() =>
+        if q != p && q >= 0 && (q as usize) < sheets.len() { quote_sheet_span(&sheets[p].0, &sheets[q].0) }
+        else { quote_sheet_name(&sheets[p].0) },
+     _ => "#Unknown" }
+   (the names as formula text writes them: commit "fix: sheet names that need quotes …"; the span of
+   sheets: commit "fix: a 3-D reference through several sheets …"; before, lastSheet was not read) *)
+Definition resolve_xti (sheets : list (list N)) (first_raw last_raw : N) : list N :=
   if first_raw =? 4294967294 then lit "#ThisWorkbook"
   else if first_raw =? 4294967295 then lit "#InvalidWorkSheet"
   else if first_raw <? 2147483648 then
-    match nthN sheets first_raw with Some s => quote_sheet_name s | None => lit "#Unknown" end
+    match nthN sheets first_raw with
+    | Some s =>
+        if negb (last_raw =? first_raw) && (last_raw <? 2147483648) then
+          match nthN sheets last_raw with Some t => quote_sheet_span s t | None => quote_sheet_name s end
+        else quote_sheet_name s
+    | None => lit "#Unknown"
+    end
   else lit "#Unknown".
 
 (* check_len("BrtExternSheet", len, 4)?;
@@ -65,8 +76,9 @@ Fixpoint extern_chunks (sheets : list (list N)) (fuel : nat) (cxti : N) (rest : 
       if cxti =? 0 then Ok [] else
       if (length rest <? 12)%nat then Ok [] else
       do first <- u32_at (firstn 12 rest) 4;
+      do last <- u32_at (firstn 12 rest) 8;
       do tl <- extern_chunks sheets f (cxti - 1) (skipn 12 rest);
-      Ok (resolve_xti sheets first :: tl)
+      Ok (resolve_xti sheets first last :: tl)
   end.
 Definition xlsb_extern_sheets (sheets : list (list N)) (payload : list N) : outcome (list (list N)) :=
   if (length payload <? 4)%nat then Err E_LEN else
@@ -82,6 +94,9 @@ Section Xlsb.
 Variable show_f64 : N -> list N.
 Variable sheets : list (list N).                 (* the bundle sheets, in BrtBundleSh order *)
 
+(* ws_names: (name, rgce) of the BrtName records read so far — the formulas are decoded once the
+   whole table is known (commit "fix: an xlsb defined name that uses a name stored after it lost that
+   name"; before, each name was decoded against the names read so far) *)
 Record wb_state := { ws_ext : list (list N); ws_names : list (list N * list N) }.
 
 (*  0x0027 => { let len = fill_buffer(&mut buf)?;  check_len("BrtName", len, 9)?;
@@ -89,9 +104,8 @@ Record wb_state := { ws_ext : list (list N); ws_names : list (list N * list N) }
         check_len("BrtName", len, 13 + str_len)?;
         let rgce_len = read_u32(&buf[9 + str_len..]) as usize;
         check_len("BrtName", len, 13 + str_len + rgce_len)?;
-        let rgce = &buf[13 + str_len..13 + str_len + rgce_len];
-        let formula = parse_formula(rgce, &self.extern_sheets, &defined_names)?;
-        defined_names.push((name, formula)); }                                           *)
+        rgces.push(buf[13 + str_len..13 + str_len + rgce_len].to_vec());
+        defined_names.push((name, String::new())); }                                     *)
 Definition brt_name (st : wb_state) (payload : list N) : outcome wb_state :=
   if (length payload <? 9)%nat then Err E_LEN else
   do ws <- wide_str (skipn 9 payload);
@@ -100,9 +114,22 @@ Definition brt_name (st : wb_state) (payload : list N) : outcome wb_state :=
   do rgce_len <- u32_at payload (9 + str_len);
   if N.of_nat (length payload) <? N.of_nat (13 + str_len) + rgce_len then Err E_LEN else
   do rgce <- sliceN payload (13 + str_len) rgce_len;
-  do formula <- xlsb_parse_formula show_f64
-                  {| be_sheets := ws_ext st; be_names := map fst (ws_names st); be_base := None |} rgce;
-  Ok {| ws_ext := ws_ext st; ws_names := ws_names st ++ [(name, formula)] |}.
+  Ok {| ws_ext := ws_ext st; ws_names := ws_names st ++ [(name, rgce)] |}.
+
+(*  at the record that follows the names:
+      let formulas = rgces.iter().map(|rgce| parse_formula(rgce, &self.extern_sheets, &defined_names, None))
+                          .collect::<Result<Vec<_>, _>>()?;          // the first error, in record order
+      for (name, formula) in defined_names.iter_mut().zip(formulas) { name.1 = formula; }
+    [all]: the names of every BrtName record; PtgName indexes that table *)
+Fixpoint decode_names (ext all : list (list N)) (l : list (list N * list N))
+  : outcome (list (list N * list N)) :=
+  match l with
+  | [] => Ok []
+  | (name, rgce) :: t =>
+      do f <- xlsb_parse_formula show_f64 {| be_sheets := ext; be_names := all; be_base := None |} rgce;
+      do r <- decode_names ext all t;
+      Ok ((name, f) :: r)
+  end.
 
 Definition brt_extern_sheet (st : wb_state) (payload : list N) : outcome wb_state :=
   do ext <- xlsb_extern_sheets sheets payload;
@@ -116,7 +143,8 @@ Fixpoint xlsb_names_loop (recs : list record) (st : wb_state)
   | (t, payload) :: rest =>
       if t =? 0x016A then do st' <- brt_extern_sheet st payload; xlsb_names_loop rest st'
       else if t =? 0x0027 then do st' <- brt_name st payload; xlsb_names_loop rest st'
-      else if is_end_rec t then Ok (ws_ext st, ws_names st)
+      else if is_end_rec t then
+        do r <- decode_names (ws_ext st) (map fst (ws_names st)) (ws_names st); Ok (ws_ext st, r)
       else xlsb_names_loop rest st
   end.
 
@@ -143,16 +171,14 @@ Definition wf_name_rec (d : name_rec) : bool :=
   forallb scalar (nr_name d) && (N.of_nat (length (utf16_units (nr_name d))) <? 4294967296) &&
   (N.of_nat (length (nr_rgce d)) <? 4294967296).
 
-(* what the property demands of the name table: one entry per record, in record order, the
-   i-th name's formula decoded against the names stored before it *)
-Fixpoint spec_names_xlsb (ext : list (list N)) (acc : list (list N * list N)) (ds : list name_rec)
+(* what the property demands of the name table: one entry per record, in record order, every
+   formula decoded against the names of ALL records (PtgName is an index into the whole table;
+   MS-XLSB 2.5.97.60 — Excel stores the names sorted, so about half of the name-to-name references
+   point forward).  [pre]: records already read (name, rgce) *)
+Definition raw_of (ds : list name_rec) : list (list N * list N) := map (fun d => (nr_name d, nr_rgce d)) ds.
+Definition spec_names_xlsb (ext : list (list N)) (pre : list (list N * list N)) (ds : list name_rec)
   : outcome (list (list N * list N)) :=
-  match ds with
-  | [] => Ok acc
-  | d :: t =>
-      do f <- xlsb_parse_formula show_f64 {| be_sheets := ext; be_names := map fst acc; be_base := None |} (nr_rgce d);
-      spec_names_xlsb ext (acc ++ [(nr_name d, f)]) t
-  end.
+  decode_names ext (map fst (pre ++ raw_of ds)) (pre ++ raw_of ds).
 
 (* Xti: (externalLink, firstSheet, lastSheet) as raw u32 (firstSheet is an i32) *)
 Definition enc_xti (x : N * N * N) : list N :=
@@ -162,7 +188,26 @@ Definition enc_externsheet (xtis : list (N * N * N)) : list N :=
 Definition wf_xti (x : N * N * N) : bool :=
   (fst (fst x) <? 4294967296) && (snd (fst x) <? 4294967296) && (snd x <? 4294967296).
 Definition spec_extern_xlsb (xtis : list (N * N * N)) : list (list N) :=
-  map (fun x => resolve_xti sheets (snd (fst x))) xtis.
+  map (fun x => resolve_xti sheets (snd (fst x)) (snd x)) xtis.
+
+(* the supporting links of the EXTERNALS block: the records between BrtBeginExternals (0x0161) and
+   BrtExternSheet in record order — BrtSupBookSrc 0x0163 (another workbook; the payload is the relationship
+   of its externalLink part, where BrtSupTabs lists its sheets), BrtSupSelf 0x0165, BrtSupSame 0x0166,
+   BrtSupAddin 0x029B — in any order and number; XTI.externalLink is an index into this list.  The reader
+   passes over them (known finding K_EXTERN_BOOK) *)
+Definition sup_type_xlsb (l : suplink) : N :=
+  match l with SupExt _ => 0x0163 | SupSelf => 0x0165 | SupSame => 0x0166 | SupAddin => 0x029B end.
+Definition sup_rec_xlsb (lp : suplink * list N) : record := (sup_type_xlsb (fst lp), snd lp).
+(* records the names loop passes over *)
+Definition skip_rec (t : N) : bool := negb ((t =? 0x016A) || (t =? 0x0027) || is_end_rec t).
+
+(* SPEC: the XTI table through the links — firstSheet / lastSheet (i32) are sheets of this workbook exactly
+   when the XTI's link is BrtSupSelf / BrtSupSame ([resolve_xti]); through a BrtSupBookSrc link they index
+   that workbook's sheets *)
+Definition tab_at_b (tabs : list (list N)) (i : N) : option (list N) :=
+  if i <? 2147483648 then nthN tabs i else None.
+Definition spec_extern_links_xlsb (links : list suplink) (xtis : list (N * N * N)) : list (list N) :=
+  map (fun x => sheet_through_link links tab_at_b (resolve_xti sheets (snd (fst x)) (snd x)) x) xtis.
 
 End Xlsb.
 
@@ -238,10 +283,13 @@ Definition builtin_fix (flags0 : N) (name : list N) : list N :=
 
 (*  0x0018 => { if r.data.len() < 14 { Err }; let cch = r.data[3] as usize;
         let cce = read_u16(&r.data[4..]) as usize; if r.data.len() < 14 + cce { Err };
-        read_unicode_string_no_cch(&encoding, &r.data[14..], &cch, &mut name);
+        let name_len = read_unicode_string_no_cch(&encoding, &r.data[14..], &cch, &mut name);   // 1 + nbytes
         [builtin_fix: a built-in name's one-character id becomes _xlnm.<Name>]
-        let rgce = &r.data[r.data.len() - cce..];
-        let formula = parse_defined_names(rgce)?; defined_names.push((name, formula)); }  *)
+        let rgce = r.data.get(14 + name_len..14 + name_len + cce).ok_or(Len)?;
+          (commit "fix: the formula of an xls defined name was taken from the end of its record …": the rgce
+           FOLLOWS THE NAME; what follows the rgce is its extra data rgcb — array constants, the areas of a
+           PtgMemArea —, not tokens.  Before: &r.data[r.data.len() - cce..])
+        let formula = parse_defined_names(rgce)?; defined_names.push((name, formula, rgce.to_vec())); }  *)
 Definition xls_lbl (data : list N) : outcome (list N * ((option N * list N) * list N)) :=
   if (length data <? 14)%nat then Err E_LEN else              (* Len { typ: "Lbl", expected: 14 } *)
   do cch <- byte_at data 3;
@@ -249,7 +297,10 @@ Definition xls_lbl (data : list N) : outcome (list N * ((option N * list N) * li
   if (length data <? 14 + N.to_nat cce)%nat then Err E_LEN else
   do d14 <- drop 14 data;
   let name := builtin_fix (nth 0 data 0) (unicode_no_cch d14 (N.to_nat cch)) in
-  let rgce := skipn (length data - N.to_nat cce) data in
+  let high := match d14 with b :: _ => N.testbit b 0 | [] => false end in
+  let name_len := (1 + (if high then 2 * N.to_nat cch else N.to_nat cch))%nat in
+  if (length data <? 14 + name_len + N.to_nat cce)%nat then Err E_LEN else
+  let rgce := firstn (N.to_nat cce) (skipn (14 + name_len) data) in
   do f <- parse_defined_names rgce;
   Ok (name, (f, rgce)).                       (* defined_names.push((name, formula, rgce.to_vec())) *)
 
@@ -267,10 +318,21 @@ Fixpoint xti_chunks (fuel : nat) (cxti : N) (rest : list N) : outcome (list (N *
       do tl <- xti_chunks f (cxti - 1) (skipn 6 rest);
       Ok ((a, b, c) :: tl)
   end.
-Definition xls_externsheet (data : list N) : outcome (list (N * N * N)) :=
+(*  let mut rgxti = r.data[2..].to_vec(); for cont in r.cont.iter().flatten() { rgxti.extend_from_slice(cont) }
+    (commit "fix: the part of an xls ExternSheet record continued in CONTINUE records was ignored …")
+    [conts]: the payloads of the CONTINUE records that follow the record *)
+Definition xls_externsheet (data : list N) (conts : list (list N)) : outcome (list (N * N * N)) :=
   if (length data <? 2)%nat then Err E_LEN else
   do cxti <- u16_at data 0;
-  xti_chunks (S (length data)) cxti (skipn 2 data).
+  let rgxti := skipn 2 data ++ concat conts in
+  xti_chunks (S (length rgxti)) cxti rgxti.
+
+(* RecordIter: the CONTINUE records (0x003C) that follow a record are its continuation (r.cont) *)
+Fixpoint leading_conts (recs : list record) : list (list N) :=
+  match recs with
+  | (t, d) :: rest => if t =? 0x003C then d :: leading_conts rest else []
+  | [] => []
+  end.
 
 (* (name, (rendering of the first token, the formula's rgce)) *)
 Definition raw_name : Type := (list N * ((option N * list N) * list N))%type.
@@ -285,7 +347,10 @@ Fixpoint xls_globals (recs : list record) (names : list raw_name) (xtis : list (
   | (t, data) :: rest =>
       if t =? 0x000A then Ok (names, xtis)
       else if t =? 0x0018 then do n <- xls_lbl data; xls_globals rest (names ++ [n]) xtis
-      else if t =? 0x0017 then do x <- xls_externsheet data; xls_globals rest names (xtis ++ x)
+      else if t =? 0x0017 then
+        (* its CONTINUE records are read with it; the loop then passes over them like RecordIter, which
+           never hands a continuation out as a record of its own *)
+        do x <- xls_externsheet data (leading_conts rest); xls_globals rest names (xtis ++ x)
       else xls_globals rest names xtis
   end.
 
@@ -320,13 +385,12 @@ Fixpoint map_o (A B : Type) (f : A -> outcome B) (l : list A) : outcome (list B)
   | x :: t => do y <- f x; do r <- map_o f t; Ok (y :: r)
   end.
 
-(* (metadata.names, xtis) of Xls::parse_workbook; [sheets] are the BoundSheet8 names:
-     let fmla_sheet_names = sheet_names.iter().map(|(_, n)| quote_sheet_name(n)).collect()
-   is what the decoder and the first-token fallback index *)
+(* (metadata.names, xtis) of Xls::parse_workbook; [sheets] are the BoundSheet8 names, which the decoder
+   and the first-token fallback look up through the XTI table and quote (xti_sheets) *)
 Definition xls_read_names (sheets : list (list N)) (recs : list record)
   : outcome (list (list N * list N) * list (N * N * N)) :=
   do g <- xls_globals recs [] [];
-  do l <- map_o (xls_final_name (map quote_sheet_name sheets) (snd g) (map fst (fst g))) (fst g);
+  do l <- map_o (xls_final_name sheets (snd g) (map fst (fst g))) (fst g);
   Ok (l, snd g).
 End XlsNames.
 
@@ -338,7 +402,10 @@ Record lbl_rec := {
   lb_wide : bool;               (* fHighByte of the name *)
   lb_name : list N;             (* the STORED string: for a built-in name (fBuiltin) the one-character
                                    string holding its id *)
-  lb_rgce : list N
+  lb_rgce : list N;
+  lb_rgcb : list N              (* NameParsedFormula (MS-XLS 2.5.198.76) = rgce ++ rgcb: the extra data of
+                                   the tokens — the values of an array constant (PtgArray), the areas of a
+                                   PtgMemArea — follows the rgce inside the record; any bytes *)
 }.
 (* SPEC: the built-in names, MS-XLS 2.5.114 (ids 0x00 .. 0x0D); as a defined name of the workbook a
    built-in name is "_xlnm." followed by this text — the string xlsx (definedName/@name,
@@ -366,7 +433,7 @@ Definition enc_lbl (d : lbl_rec) : list N :=
   [if lb_wide d then N.of_nat (length (utf16_units (lb_name d))) else N.of_nat (length (lb_name d))] ++
   le 2 (N.of_nat (length (lb_rgce d))) ++ [0; 0] ++ le 2 (lb_itab d) ++ [0; 0; 0; 0] ++
   (if lb_wide d then 1 :: flat_map (le 2) (utf16_units (lb_name d)) else 0 :: lb_name d) ++
-  lb_rgce d.
+  lb_rgce d ++ lb_rgcb d.
 Definition wf_lbl (d : lbl_rec) : bool :=
   (lb_flags d <? 65536) && (lb_chkey d <? 256) && (lb_itab d <? 65536) &&
   (if lb_wide d then forallb scalar (lb_name d) && (N.of_nat (length (utf16_units (lb_name d))) <? 256)
@@ -383,24 +450,60 @@ Definition wf_xti16 (x : N * N * N) : bool :=
 (* the globals substream as far as the environment is concerned *)
 Inductive grec :=
 | GLbl (d : lbl_rec)
-| GExt (xtis : list (N * N * N))
+| GExt (xtis : list (N * N * N)) (cuts : list nat)
+    (* ExternSheet: cXTI, then the XTI array — any number of them up to 65535; what does not fit into the
+       record (8224 bytes: 1370 XTI) goes on in CONTINUE records (MS-XLS 2.4.105).  [cuts]: the sizes of the
+       pieces of the array in the record itself and in all but the last CONTINUE record — any split *)
+| GSup (l : suplink) (ctab : N) (path : list N)
+    (* SupBook (0x01AE, MS-XLS 2.4.271), the supporting links in record order: ctab, then cch = 0x0401 (this
+       workbook; ctab = its number of sheets) or 0x3A01 (add-in functions) or the length of the other workbook's
+       path, which follows with the names of its ctab sheets (XLUnicodeString each).  XTI.iSupBook is an index
+       into the list of these records.  The reader passes over them (known finding K_EXTERN_BOOK) *)
 | GOther (t : N) (data : list N).
-Definition enc_grec (g : grec) : record :=
+(* the body of a SupBook record *)
+Definition enc_supbook (l : suplink) (ctab : N) (path : list N) : list N :=
+  match l with
+  | SupSelf | SupSame => le 2 ctab ++ [0x01; 0x04]
+  | SupAddin => le 2 ctab ++ [0x01; 0x3A]
+  | SupExt tabs =>
+      le 2 ctab ++ le 2 (N.of_nat (length path)) ++ 0 :: path ++
+      flat_map (fun t => le 2 (N.of_nat (length (utf16_units t))) ++ 1 :: flat_map (le 2) (utf16_units t)) tabs
+  end.
+Fixpoint pieces (cuts : list nat) (b : list N) : list (list N) :=
+  match cuts with [] => [b] | c :: t => firstn c b :: pieces t (skipn c b) end.
+Definition enc_grec (g : grec) : list record :=
   match g with
-  | GLbl d => (0x0018, enc_lbl d)
-  | GExt x => (0x0017, enc_externsheet16 x)
-  | GOther t data => (t, data)
+  | GLbl d => [(0x0018, enc_lbl d)]
+  | GExt x cuts =>
+      match pieces cuts (flat_map enc_xti16 x) with
+      | p0 :: ps => (0x0017, le 2 (N.of_nat (length x)) ++ p0) :: map (fun p => (0x003C, p)) ps
+      | [] => []
+      end
+  | GSup l ctab path => [(0x01AE, enc_supbook l ctab path)]
+  | GOther t data => [(t, data)]
   end.
 Definition wf_grec (g : grec) : bool :=
   match g with
   | GLbl d => wf_lbl d
-  | GExt x => forallb wf_xti16 x && (N.of_nat (length x) <? 65536)
-  | GOther t _ => negb ((t =? 0x000A) || (t =? 0x0018) || (t =? 0x0017))
+  | GExt x _ => forallb wf_xti16 x && (N.of_nat (length x) <? 65536)
+  | GSup l ctab path =>
+      (ctab <? 65536) &&
+      match l with
+      | SupSame => false                         (* no such SupBook *)
+      | SupExt tabs => (N.of_nat (length tabs) =? ctab) && (1 <=? N.of_nat (length path)) &&
+                       (N.of_nat (length path) <? 256) && forallb (fun c => c <? 256) path &&
+                       forallb (fun t => forallb scalar t && (N.of_nat (length (utf16_units t)) <? 65536)) tabs
+      | _ => true
+      end
+  | GOther t _ => negb ((t =? 0x000A) || (t =? 0x0018) || (t =? 0x0017) || (t =? 0x003C) || (t =? 0x01AE))
   end.
+(* the supporting links of the file, in the order XTI.iSupBook counts them *)
+Definition links_of (gs : list grec) : list suplink :=
+  flat_map (fun g => match g with GSup l _ _ => [l] | _ => [] end) gs.
 Definition lbls_of (gs : list grec) : list lbl_rec :=
   flat_map (fun g => match g with GLbl d => [d] | _ => [] end) gs.
 Definition xtis_of (gs : list grec) : list (N * N * N) :=
-  flat_map (fun g => match g with GExt x => x | _ => [] end) gs.
+  flat_map (fun g => match g with GExt x _ => x | _ => [] end) gs.
 
 (* names the property demands: one per Lbl record, in record order, whatever the flags *)
 Fixpoint spec_lbls (ds : list lbl_rec) : outcome (list raw_name) :=
